@@ -51,6 +51,8 @@ type pipeTarget struct {
 	mu      sync.Mutex
 	script  []*pb.SubscribeResponse // data messages, in order
 	dropAt  int                     // >0: the first stream is broken after this many messages
+	eofAt   int                     // >0: the first stream carries script[:eofAt] and then ends in an orderly way (EOF);
+	//                                 the second stream is a new life of the target: it carries script[eofAt:] only
 	opens   int
 	sentVal int64 // sentinel value of the last completed script
 	srv     *grpc.Server
@@ -66,7 +68,24 @@ func (p *pipeTarget) Subscribe(stream pb.GNMI_SubscribeServer) error {
 	n := p.opens
 	script := p.script
 	drop := p.dropAt
+	if p.eofAt > 0 {
+		if n == 1 {
+			script = script[:p.eofAt]
+		} else {
+			script = script[p.eofAt:]
+		}
+	}
+	eof := p.eofAt > 0 && n == 1
 	p.mu.Unlock()
+	if eof {
+		for _, m := range script {
+			if err := stream.Send(m); err != nil {
+				return err
+			}
+		}
+		stream.Send(&pb.SubscribeResponse{Response: &pb.SubscribeResponse_SyncResponse{SyncResponse: true}})
+		return nil // the target ends the stream itself
+	}
 	for i, m := range script {
 		if err := stream.Send(m); err != nil {
 			return err
@@ -213,6 +232,7 @@ type pipeEnv struct {
 	coll    *exec.Cmd
 	// keyed paths sent by the scripts, per target: candidates for a sub-tree query handed to the CLI as a query flag
 	keyed map[string][][]*pb.PathElem
+	eofCut map[string]int // per target: script index at which a new life of the target begins (0 = none)
 	// atomic containers sent by the scripts: origin and member count per target/container
 	atomOrigin  map[string]string
 	atomMembers map[string]int
@@ -244,7 +264,20 @@ func (e *pipeEnv) genScript(t string) {
 		}
 		live = kept
 	}
+	// a target may end its first stream in an orderly way and come back with a new life: what it streamed before is
+	// gone unless it streams it again (the collector resets its cache when a stream ends, however it ends)
+	sessionMode := r.Intn(3) // 0: one stream; 1: the first stream breaks and is replayed; 2: it ends in an orderly way, a new life follows
+	cutAt := -1
+	if sessionMode == 2 && n > 4 {
+		cutAt = 2 + r.Intn(n-3)
+	}
 	for i := 0; i < n; i++ {
+		if i == cutAt && len(pt.script) > 0 {
+			e.eofCut[t] = len(pt.script)
+			e.w.Emit(trace.E{"ev": "tsession", "t": t})
+			live = nil
+			used = nil
+		}
 		if len(live) >= 2 && r.Intn(8) == 0 {
 			// the resync idiom: one notification re-asserts a leaf with a timestamp the collector has already passed
 			// (refused as stale - nothing changes) and deletes another, older leaf (which must go all the same)
@@ -393,9 +426,11 @@ func (e *pipeEnv) genScript(t string) {
 			pt.script = append(pt.script, &pb.SubscribeResponse{Response: &pb.SubscribeResponse_Update{Update: an}})
 		}
 	}
-	if r.Intn(2) == 0 {
+	if sessionMode == 1 && len(pt.script) > 0 {
 		pt.dropAt = 1 + r.Intn(len(pt.script))
 		e.w.Emit(trace.E{"ev": "redial", "t": t})
+	} else if e.eofCut[t] > 0 {
+		pt.eofAt = e.eofCut[t]
 	}
 }
 
@@ -589,7 +624,7 @@ func parseGroupDisplay(s string) ([]pipeLeaf, bool) {
 
 func pipelineOne(w *trace.Writer, bin, dir string, seed int64) error {
 	r := rand.New(rand.NewSource(seed))
-	e := &pipeEnv{w: w, bin: bin, dir: dir, r: r, targets: map[string]*pipeTarget{}, atomOrigin: map[string]string{}, atomMembers: map[string]int{}, keyed: map[string][][]*pb.PathElem{}}
+	e := &pipeEnv{w: w, bin: bin, dir: dir, r: r, targets: map[string]*pipeTarget{}, atomOrigin: map[string]string{}, atomMembers: map[string]int{}, keyed: map[string][][]*pb.PathElem{}, eofCut: map[string]int{}}
 	certFile, keyFile, cert, err := selfSigned(dir)
 	if err != nil {
 		return err
@@ -618,7 +653,7 @@ func pipelineOne(w *trace.Writer, bin, dir string, seed int64) error {
 	}
 	defer func() { e.coll.Process.Kill(); e.coll.Wait() }()
 	final := func(t string) int64 {
-		if e.targets[t].dropAt > 0 {
+		if e.targets[t].dropAt > 0 || e.targets[t].eofAt > 0 {
 			return 2
 		}
 		return 1
